@@ -12,10 +12,14 @@ package main
 import (
 	"bufio"
 	"bytes"
+	"context"
 	"errors"
 	"fmt"
+	"os"
+	"os/exec"
 	"sort"
 	"strings"
+	"time"
 
 	quic "github.com/refraction-networking/uquic"
 	u "github.com/refraction-networking/uquic/internal/verifutil"
@@ -23,7 +27,49 @@ import (
 
 func init() {
 	units["upacker"] = runUPacker
+	units["upacker-dials"] = runUPackerDials // child process of `upacker`
 	genSources = append(genSources, quic.VerifUPackerConsts)
+}
+
+// c10Child re-executes the driver for a part that runs whole connections: a panic inside a
+// connection goroutine cannot be recovered and would take the unit's whole output with it.
+// The child's lines are passed through; a crash becomes a MONFAIL with the panic message.
+func c10Child(w *bufio.Writer, key string, args ...string) {
+	ctx, cancel := context.WithTimeout(context.Background(), 15*time.Minute)
+	defer cancel()
+	cmd := exec.CommandContext(ctx, os.Args[0], args...)
+	cmd.Env = os.Environ()
+	var stderr bytes.Buffer
+	cmd.Stderr = &stderr
+	out, err := cmd.Output()
+	lines := strings.Split(string(out), "\n")
+	if err != nil && len(lines) > 0 {
+		lines = lines[:len(lines)-1] // possibly cut in the middle
+	}
+	for _, l := range lines {
+		if l != "" {
+			fmt.Fprintln(w, l)
+		}
+	}
+	if err != nil {
+		msg := stderr.String()
+		if i := strings.Index(msg, "panic:"); i >= 0 {
+			msg = msg[i:]
+		}
+		if i := strings.Index(msg, "goroutine "); i > 0 {
+			j := strings.Index(msg[i:], "\n\n")
+			if j > 0 {
+				msg = msg[:i+j]
+			}
+		}
+		if len(msg) > 900 {
+			msg = msg[:900]
+		}
+		if ctx.Err() != nil {
+			msg = "no result after 15 minutes (a connection's run loop spinning inside the virtual-time bubble?)"
+		}
+		fmt.Fprintf(w, "MONFAIL\t%s\tthe process running whole connections crashed or hung (%v)\t%s\n", key, err, strings.ReplaceAll(strings.ReplaceAll(msg, "\n", " | "), "\t", " "))
+	}
 }
 
 // ---- custom builders (exported interfaces only) ----------------------------------------
@@ -766,9 +812,8 @@ func runUPacker(w *bufio.Writer, seed uint64, n int, args []string) {
 	for i := 0; i < n; i++ {
 		c10RunCase(w, rep, c10GenCase(r.Fork()), dist)
 	}
-	for i := 0; i < n/12+3; i++ {
-		c10DialCase(w, rep, r.Fork(), dist)
-	}
+	w.Flush()
+	c10Child(w, "upacker/dial/crash", "upacker-dials", fmt.Sprint(r.U64()), fmt.Sprint(n/12+3))
 	var ks []string
 	for k := range dist {
 		ks = append(ks, k)
@@ -779,4 +824,15 @@ func runUPacker(w *bufio.Writer, seed uint64, n int, args []string) {
 			fmt.Fprintf(w, "DIST\t%s\t%d\n", k, dist[k])
 		}
 	}
+}
+
+func runUPackerDials(w *bufio.Writer, seed uint64, n int, _ []string) {
+	r := u.NewRng(seed)
+	rep := &c10Reporter{w: w, seen: map[string]int{}}
+	dist := map[string]int{}
+	for i := 0; i < n; i++ {
+		c10DialCase(w, rep, r.Fork(), dist)
+		w.Flush()
+	}
+	fmt.Fprintf(w, "DIST\tDialCase\t%d\n", dist["DialCase"])
 }
